@@ -113,7 +113,8 @@ Proof. exact patch_gvar_inv. Qed.
 
 Theorem c18_other_tables_identical : forall f infos views F x, NoDup (map fst f) ->
   gk_core f infos views = inr F ->
-  x <> T_glyf -> x <> T_loca -> x <> T_gvar -> x <> T_IFT -> x <> T_IFTX -> lookup F x = lookup f x.
+  x <> T_glyf -> x <> T_loca -> x <> T_gvar -> x <> T_CFF -> x <> T_CFF2 -> x <> T_IFT -> x <> T_IFTX ->
+  lookup F x = lookup f x.
 Proof. exact gk_core_other_tables. Qed.
 
 (* applied bits: one application-flag update touches exactly one byte, OR-ing 1 << bit into it ... *)
@@ -159,14 +160,110 @@ Proof. exact gk_core_perm. Qed.
 (* grouping independence: applying ps1 ++ ps2 in one call gives the same font (every table) as applying
    ps1 and then ps2 to the result, for glyph keyed patches on glyf/loca that agree on shared glyphs
    (hypotheses: base font tables sorted by tag as FontBuilder emits them; glyph ids and numGlyphs are
-   unsigned; the patches do not list gvar — for gvar the statement is only tested) *)
+   unsigned; the patches list only glyf among the glyph-indexed tables (glyf_only) — for gvar / CFF / CFF2
+   the statement is only tested) *)
 Theorem c18_grouping_independent : forall f i1 i2 v1 v2 F12 F1 F2,
   gm_ok f -> gids_nonneg (v1 ++ v2) -> views_agree T_glyf (v1 ++ v2) ->
   (forall mx ng, lookup f T_maxp = Some mx -> uN_at 2 mx 4 = Some ng -> 0 <= ng) ->
-  lists_tag (v1 ++ v2) T_gvar = false ->
+  glyf_only (v1 ++ v2) ->
   gk_core f (i1 ++ i2) (v1 ++ v2) = inr F12 ->
   gk_core f i1 v1 = inr F1 -> gk_core F1 i2 v2 = inr F2 -> F2 = F12.
 Proof. exact gk_core_grouping. Qed.
+
+(* ... and for ANY partition of the patch set into successive calls, in any order: the sequence of calls
+   yields the one-call font (gk_partition), hence two partitions of permuted patch sets yield the same
+   font.  Hypotheses (prefix_ok): the patches agree on shared glyph ids — which the IFT specification
+   requires — and the one-call application of every prefix of the partition succeeds (a prefix can fail
+   where the whole succeeds, e.g. by exceeding the short-loca limit before a later patch shrinks a glyph).
+   Without agreement the statement is false: Examples.v c18_grouping_refuted. *)
+Theorem c18_partition_independent : forall f, gm_ok f ->
+  (forall mx ng, lookup f T_maxp = Some mx -> uN_at 2 mx 4 = Some ng -> 0 <= ng) ->
+  forall blocks Fs,
+  gids_nonneg (map snd (concat blocks)) -> glyf_only (map snd (concat blocks)) ->
+  prefix_ok f blocks -> gk_seq f blocks = inr Fs -> one_call f blocks = inr Fs.
+Proof. exact gk_partition. Qed.
+Theorem c18_any_partition_same_font : forall f blocks blocks' Fs Fs', gm_ok f ->
+  (forall mx ng, lookup f T_maxp = Some mx -> uN_at 2 mx 4 = Some ng -> 0 <= ng) ->
+  Permutation (concat blocks) (concat blocks') ->
+  agree_all (map snd (concat blocks)) ->
+  gids_nonneg (map snd (concat blocks)) -> glyf_only (map snd (concat blocks)) ->
+  gids_nonneg (map snd (concat blocks')) -> glyf_only (map snd (concat blocks')) ->
+  prefix_ok f blocks -> prefix_ok f blocks' ->
+  gk_seq f blocks = inr Fs -> gk_seq f blocks' = inr Fs' -> Fs' = Fs.
+Proof. exact gk_any_partition. Qed.
+(* bookkeeping of successive calls = bookkeeping of one call, in any order *)
+Theorem c18_statuses_partition : forall (blocks : list (list pinfo)) (st : statuses),
+  fold_left (fun s b => fold_left (fun s (i : pinfo) => set_applied s (pi_uri i)) b s) blocks st =
+  fold_left (fun s i => set_applied s (pi_uri i)) (concat blocks) st.
+Proof. exact statuses_partition. Qed.
+Theorem c18_statuses_order_independent : forall l l', Permutation l l' -> forall st : statuses,
+  fold_left (fun s (i : pinfo) => set_applied s (pi_uri i)) l st = fold_left (fun s i => set_applied s (pi_uri i)) l' st.
+Proof. exact statuses_perm. Qed.
+
+(* glyf short-loca (in general: any offset array whose only available type is its own) overflow:
+   SerializationError(OFFSET_OVERFLOW), and a failing glyf branch fails the whole application — no font is
+   produced, and by c18_error_leaves_bookkeeping the caller's status map is untouched *)
+Theorem c18_short_loca_overflow_is_error : forall f views maxgid glyf T offs m total0,
+  lookup f T_glyf = Some glyf -> read_loca f = Some (T, offs) ->
+  dedup views T_glyf = inr m ->
+  retained_total (keep_from 0 (map fst m) maxgid) offs (6, 10) 0 = inr total0 ->
+  ot_max T < fold_left (fun a gd => a + (len (snd gd) + len (snd gd) mod ot_div T)) m total0 ->
+  patch_glyf f views maxgid = inl (3, 2).
+Proof. exact glyf_overflow_is_error. Qed.
+Theorem c18_failing_glyf_branch_fails_everything : forall f infos views mx ng e,
+  lookup f T_maxp = Some mx -> uN_at 2 mx 4 = Some ng -> (ng =? 0) = false ->
+  forallb (fun v => strictly_ascending (gp_tables v)) views = true ->
+  lists_tag views T_CFF = false -> lists_tag views T_CFF2 = false -> lists_tag views T_glyf = true ->
+  patch_glyf f views (ng - 1) = inl e -> gk_core f infos views = inl e.
+Proof. exact gk_core_glyf_error. Qed.
+(* the loca written back is readable with the UNCHANGED head.indexToLocFormat, has numGlyphs + 1 ascending
+   entries and decodes to exactly the builder's offsets *)
+Theorem c18_loca_width_matches_head : forall f infos views F T offs,
+  gm_ok f -> glyf_only views -> gids_nonneg views ->
+  (forall mx ng, lookup f T_maxp = Some mx -> uN_at 2 mx 4 = Some ng -> 0 <= ng) ->
+  gk_core f infos views = inr F -> lists_tag views T_glyf = true -> read_loca f = Some (T, offs) ->
+  lookup F T_head = lookup f T_head /\
+  exists os ng mx, lookup f T_maxp = Some mx /\ uN_at 2 mx 4 = Some ng /\
+    read_loca F = Some (T, os) /\ len os = ng + 1 /\ ascending os = true /\
+    lookup F T_loca = Some (encode_offsets T os).
+Proof. exact loca_width_matches_head. Qed.
+
+(* CFF / CFF2 instance: the charstrings INDEX is patch_offset_array on (1-based offsets minus 1, object
+   data) with the four CFF offset types, so c18_glyph_keyed_exact / c18_offsets_ascending /
+   c18_offset_type_widens_only_when_needed apply; the table is prefix ++ count ++ offSize ++ offsets ++ data *)
+Theorem c18_cff_is_the_builder_output : forall cw tg c2 f views maxgid adds,
+  patch_cff cw tg c2 f views maxgid = inr adds ->
+  exists cs_off tbl count offsz T' os ds,
+    ift_charstrings_offset f c2 = Some cs_off /\ lookup f tg = Some tbl /\
+    uN_at cw (skipn (Z.to_nat cs_off) tbl) 0 = Some count /\ uN_at 1 (skipn (Z.to_nat cs_off) tbl) cw = Some offsz /\
+    1 <= offsz <= 4 /\ count = maxgid + 1 /\
+    patch_offset_array views tg
+      (map (fun x => x - 1) (chunks (Z.to_nat offsz) (Z.to_nat (count + 1)) (skipn (Z.to_nat (cw + 1)) (skipn (Z.to_nat cs_off) tbl))))
+      (skipn (Z.to_nat (cw + 1 + (count + 1) * offsz)) (skipn (Z.to_nat cs_off) tbl))
+      (ot_cff offsz) cff_types (2, 1) maxgid = inr (T', os, ds) /\
+    adds = [(tg, firstn (Z.to_nat cs_off) tbl ++ to_be (Z.to_nat cw) count ++ [ot_width T'] ++ encode_offsets T' os ++ ds)].
+Proof. exact patch_cff_inv. Qed.
+(* the exactness theorem for an ascending check that looks only at some of the offsets [chk] (the CFF
+   behaviour before /repo 6183e73): it needs the extra hypothesis that passing the partial check implies all
+   offsets ascend — without it the conclusion fails (Examples.v c18_cff_last_offset_refuted) *)
+Theorem c18_glyph_keyed_exact_partial_check : forall views t offs chk data T avail e_off maxgid T' os ds,
+  patch_offset_array_gen views t offs chk data T avail e_off maxgid = inr (T', os, ds) -> 0 <= maxgid ->
+  (ascending chk = true -> ascending offs = true) ->
+  exists m, dedup views t = inr m /\
+   (Forall (fun gd => 0 <= fst gd) m ->
+    forall g, 0 <= g <= maxgid ->
+      exists a b s, nthZ os g = Some a /\ nthZ os (g + 1) = Some b /\
+                    new_slice T' m offs data g = Some s /\ slice ds a b = Some s).
+Proof. exact poa_gen_exact. Qed.
+
+
+(* offset width vs order of calls: if the data size after the first call does not exceed the size after the
+   second (growth-only patches) deciding the width twice = deciding it once, so widening is independent of
+   order and grouping; in general it is not (widths never narrow): Examples.v c18_width_order_independent_refuted *)
+Theorem c18_width_order_independent_growth_only : forall T avail total1 total2, total1 <= total2 ->
+  (let? T1 := choose_type T avail total1 in choose_type T1 avail total2) =
+  (let? _ := choose_type T avail total1 in choose_type T avail total2).
+Proof. exact choose_type_growth_only. Qed.
 
 Print Assumptions c18_table_keyed_exact.
 Print Assumptions c18_incompatible_before_any_decode.
@@ -187,3 +284,13 @@ Print Assumptions c18_error_leaves_bookkeeping.
 Print Assumptions c18_success_flips_exactly_applied.
 Print Assumptions c18_order_independent.
 Print Assumptions c18_grouping_independent.
+Print Assumptions c18_partition_independent.
+Print Assumptions c18_any_partition_same_font.
+Print Assumptions c18_statuses_partition.
+Print Assumptions c18_statuses_order_independent.
+Print Assumptions c18_short_loca_overflow_is_error.
+Print Assumptions c18_failing_glyf_branch_fails_everything.
+Print Assumptions c18_loca_width_matches_head.
+Print Assumptions c18_cff_is_the_builder_output.
+Print Assumptions c18_glyph_keyed_exact_partial_check.
+Print Assumptions c18_width_order_independent_growth_only.
